@@ -102,6 +102,9 @@ func (ft *funcTrans) call(in ssa.CallInstruction, val *ssa.Call) {
 		return
 	}
 	callee := com.StaticCallee()
+	if ft.xmlEncoderCall(com, val) {
+		return
+	}
 	if callee != nil && ft.isMarker(callee) {
 		arg := ft.termOf(com.Args[0])
 		switch callee.Name() {
